@@ -27,6 +27,7 @@ pub fn child_main(args: &[String]) -> i32 {
         Some("prefixes") => prefixes(&args[1..]),
         Some("estimate") => crate::props::c18::estimate_child(&args[1..]),
         Some("extract") => extract(&args[1..]),
+        Some("queries") => queries(&args[1..]),
         Some("create") => create(&args[1..]),
         Some("pipeline") => crate::pipecheck::child_main(&args[1..]),
         _ => {
@@ -65,6 +66,52 @@ fn extract(args: &[String]) -> i32 {
     let r = guarded(|| crate::pipeline::read_all(&a));
     let line = match r {
         Ok(Ok(v)) => format!("ok {}", crate::util::sha256_hex(format!("{:?}", v).as_bytes())),
+        Ok(Err(e)) => format!("err {}", e.lines().next().unwrap_or("")),
+        Err(p) => format!("panic {}", p),
+    };
+    println!("{}", line);
+    0
+}
+
+/// `queries <archive>`: every read-side query of the library on every sample / contig (lengths,
+/// ranges around the ends, descriptor tables, group statistics, reference segments); prints
+/// `ok <sha256 of the transcript>` or the panic. Used to compare build profiles.
+fn queries(args: &[String]) -> i32 {
+    install_panic_hook();
+    let path = args[0].clone();
+    let r = guarded(|| -> Result<String, String> {
+        let mut d = Decompressor::open(&path, DecompressorConfig { verbosity: 0 }).map_err(|e| format!("open failed: {:#}", e))?;
+        let mut t = String::new();
+        let mut groups: Vec<u32> = Vec::new();
+        for s in d.list_samples().into_iter().take(130) {
+            let contigs = d.list_contigs(&s).map_err(|e| format!("list_contigs: {:#}", e))?;
+            for c in contigs.iter().take(40) {
+                let len = d.get_contig_length(&s, c).map_err(|e| format!("get_contig_length: {:#}", e))?;
+                t.push_str(&format!("{} {} len={}\n", s, c, len));
+                for (a, b) in [(0usize, len), (len / 3, 2 * len / 3 + 1), (len.saturating_sub(1), len + 5), (5, 5), (0, 1), (len, len + 1)] {
+                    let r = d.get_contig_range(&s, c, a, b).map(|v| crate::util::sha256_hex(&v)[..12].to_string()).unwrap_or_else(|_| "err".into());
+                    t.push_str(&format!("  [{},{}) {}\n", a, b, r));
+                }
+                if let Ok(ds) = d.get_contig_segments_desc(&s, c) {
+                    for x in &ds {
+                        t.push_str(&format!("  seg {} {} {} {}\n", x.group_id, x.in_group_id, x.is_rev_comp, x.raw_length));
+                        groups.push(x.group_id);
+                    }
+                }
+            }
+        }
+        t.push_str(&format!("all_segments {}\n", d.get_all_segments().map(|v| v.len() as i64).unwrap_or(-1)));
+        t.push_str(&format!("group_stats {}\n", d.get_group_statistics().map(|v| format!("{:?}", v)).map(|x| crate::util::sha256_hex(x.as_bytes())[..12].to_string()).unwrap_or_else(|_| "err".into())));
+        groups.sort_unstable();
+        groups.dedup();
+        for g in groups.iter().take(24) {
+            let r = d.get_reference_segment(*g).map(|v| crate::util::sha256_hex(&v)[..12].to_string()).unwrap_or_else(|_| "err".into());
+            t.push_str(&format!("ref {} {}\n", g, r));
+        }
+        Ok(t)
+    });
+    let line = match r {
+        Ok(Ok(t)) => format!("ok {}", crate::util::sha256_hex(t.as_bytes())),
         Ok(Err(e)) => format!("err {}", e.lines().next().unwrap_or("")),
         Err(p) => format!("panic {}", p),
     };
